@@ -1,7 +1,7 @@
 (* C25, FIELD semantics: proofs about model/FieldVars.v *)
 From Coq Require Import ZArith List Bool Lia ZifyBool.
 From PCB Require Import lib.Result lib.PyInt gen.Gen_locks model.Locks model.RandomFile model.SharedFile
-  model.FieldVars proofs.RandomFile_proofs proofs.SharedFile_proofs.
+  model.FieldVars proofs.RandomFile_proofs proofs.SharedFrame_proofs proofs.SharedFile_proofs.
 Import ListNotations.
 Open Scope Z_scope.
 
